@@ -3,19 +3,12 @@
 From Coq Require Import ZArith QArith List Bool Lia Permutation.
 From Knut Require Import Model.Str Model.Dec Model.Date Model.Account Model.Ledger Model.Journal
      Model.Table Model.ImpCommonA Model.ImpCommonB Model.Imp.Revolut2 Model.Imp.Revolut Model.Imp.Wise Model.Imp.Swissquote
-     Spec.ImpSpecA Spec.ImpSpecB Spec.ImpStmtB
-     Proofs.StrProofs Proofs.StableSort Proofs.PairProofs Proofs.ImpProofsA Proofs.ImpProofsB Proofs.ImpRunB.
+     Spec.ImpSpecA Spec.ImpSpecB Spec.ImpStmtA Spec.ImpStmtB
+     Proofs.StrProofs Proofs.StableSort Proofs.PairProofs Proofs.ImpProofsA Proofs.ImpProofsB Proofs.ImpRunB Proofs.ImpStdoutA.
 Import ListNotations.
 Open Scope bool_scope.
 
 (* ---------------------------------------------------------------- general *)
-Lemma rec_eqb_eq a : forall b, rec_eqb a b = true -> a = b.
-Proof.
-  induction a as [|x a IH]; intros [|y b] H; try discriminate H; [reflexivity|].
-  cbn [rec_eqb] in H. apply andb_prop in H. destruct H as [Hx Hr]. apply str_eqb_eq in Hx. subst y.
-  f_equal. apply IH, Hr.
-Qed.
-
 (* what books_b and the description say about a transaction determines it *)
 Lemma books_b_determines acct f ls tg text t :
   books_b acct f ls tg t -> t_desc t = build_desc text -> DTxn t = booking_directive f text ls tg.
